@@ -4,6 +4,7 @@ import (
 	"flag"
 	"fmt"
 	"os"
+	"regexp"
 	"runtime"
 	"sort"
 	"strings"
@@ -95,6 +96,9 @@ func cmdFunc(args []string) {
 				bad++
 			}
 			fmt.Printf("   %-8s %-7s %-6s %5.2fs  %s  [%s]\n", status, o.Result, o.Backend, o.Secs, o.Name, strings.Join(o.Props, ","))
+			if status == "FAIL" && o.Model != "" {
+				fmt.Println("        path: " + modelPath(o.Model))
+			}
 			if status == "FAIL" && *verbose && o.Model != "" {
 				fmt.Println(indent(trimModel(o.Model), "        "))
 			}
@@ -139,3 +143,27 @@ func cmdList(args []string) {
 
 func cmdSelftest(args []string) { fmt.Println("not yet"); os.Exit(2) }
 func cmdReplay(args []string)   { fmt.Println("not yet"); os.Exit(2) }
+
+var rePathVar = regexp.MustCompile(`\(define-fun (f\d+)_r(\d+)(?:!\d+)? \(\) Bool\s+true\)`)
+
+// modelPath lists the basic blocks reached in a model (per frame).
+func modelPath(model string) string {
+	m := rePathVar.FindAllStringSubmatch(model, -1)
+	by := map[string][]int{}
+	for _, x := range m {
+		var n int
+		fmt.Sscan(x[2], &n)
+		by[x[1]] = append(by[x[1]], n)
+	}
+	var ks []string
+	for k := range by {
+		ks = append(ks, k)
+	}
+	sort.Strings(ks)
+	var out []string
+	for _, k := range ks {
+		sort.Ints(by[k])
+		out = append(out, fmt.Sprintf("%s:%v", k, by[k]))
+	}
+	return strings.Join(out, " ")
+}
